@@ -20,6 +20,14 @@ class CNode:
     def __init__( self, id, kind, stmt=None, expr=None, why=None ):
         self.id, self.kind, self.stmt, self.expr, self.why = id, kind, stmt, expr, why
         self.lineno = getattr( stmt, 'lineno', getattr( expr, 'lineno', 0 ))
+    def own( self ):
+        """the part of the AST this node itself evaluates (a simple statement, or the test / iterable / context expression)"""
+        if self.kind == 'stmt':
+            return self.stmt
+        if self.kind in ( 'test', 'for', 'with' ):
+            return self.expr
+        return None
+
     def __repr__( self ):
         t = ''
         if self.expr is not None and self.kind in ( 'test', 'for', 'with' ):
